@@ -2,11 +2,10 @@
   C08 — every documented operation is offered with its effective parameters, or reported.  Property theorems only.
 -/
 import SV.Proofs.C08Cache
+import SV.Proofs.C08Witness
 
 namespace SV.Props.C08
 open SV.Model.C08 SV.Spec.C08 SV.Proofs.C08
-
-def pP (n : String) (t : Nat) : PEntry := .inline ⟨some n, some "query", false, t⟩
 
 /-! ## effective parameters -/
 
@@ -86,12 +85,6 @@ theorem C08_path_level_kept_iff (op shared : List Param) (s : Param) (hs : s ∈
 
 /-! ### the tree as found: the path-level definition wins (F14) -/
 
-def wOp : List Param := [⟨some "q", some "query", false, 1⟩]
-def wShared : List Param := [⟨some "q", some "query", true, 2⟩]
-def wMergeDoc : Doc :=
-  { paths := [("/a", .inline ⟨wShared.map .inline, [("get", ⟨some "getA", wOp.map .inline, .absent, none⟩)]⟩)],
-    files := [⟨[], []⟩], links := [], schemes := [], globalSec := [] }
-
 /-- as found, GET /a is offered with both definitions of `q`, and the generated schema takes the path-level one;
     the repaired variant offers only the operation-level definition -/
 theorem merge_asFound_witness :
@@ -145,13 +138,6 @@ theorem C08_security (cfg : Cfg) (d : Doc) (path method : String) (od : OpDef) (
       · intro ht hn
         exact processSchemes_http _ _ _ _ s hs hact ht hn h
 
-def wSecDoc : Doc :=
-  { paths := [("/a", .inline ⟨[], [("get", ⟨some "getA", [.inline ⟨some "key", some "query", false, 5⟩], .absent, none⟩),
-                                  ("post", ⟨none, [], .absent, some ["k2"]⟩)]⟩)],
-    files := [⟨[], []⟩], links := [],
-    schemes := [⟨"k1", some "apiKey", some "key", some "query"⟩, ⟨"k2", some "http", none, none⟩],
-    globalSec := ["k1"] }
-
 /-- non-vacuity of `C08_security`: GET /a defines the api key itself (nothing is added), POST /a overrides the global
     requirement and gets the `Authorization` header -/
 example : (iterate Cfg.repaired wSecDoc).1 =
@@ -159,11 +145,6 @@ example : (iterate Cfg.repaired wSecDoc).1 =
      .ok ⟨"/a", "post", [], [httpAuthParam], [], [], []⟩] := by decide
 
 /-! ## references to parameters -/
-
-def chainDoc (n : Nat) : Doc :=
-  { paths := [("/a", .inline ⟨[.ref "" "C0"], [("get", ⟨none, [], .absent, none⟩)]⟩)],
-    files := [⟨(List.range n).map (fun i => (s!"C{i}", PEntry.ref "" s!"C{i + 1}")) ++ [(s!"C{n}", pP "p" 7)], []⟩],
-    links := [], schemes := [], globalSec := [] }
 
 /-- `resolve_all` with `RECURSION_DEPTH_LIMIT - 8`: a chain of up to 9 references ends in the parameter definition;
     the 10th reference is handed on unresolved, the operation is reported (the entry has no `in`), not dropped -/
@@ -206,11 +187,6 @@ theorem C08_total_each (cfg : Cfg) (ht : cfg.typeErr = .repaired) (d : Doc) (p :
     exact ⟨e, hit⟩
 
 /-! ### the tree as found: a non-object parameter entry kills the generator (FC08a) -/
-
-def wTypeDoc : Doc :=
-  { paths := [("/a", .inline ⟨[], [("get", ⟨some "getA", [.junk], .absent, none⟩)]⟩),
-              ("/b", .inline ⟨[], [("get", ⟨some "getB", [], .absent, none⟩)]⟩)],
-    files := [⟨[], []⟩], links := [], schemes := [], globalSec := [] }
 
 /-- as found: TypeError escapes, GET /a is not reported and GET /b is neither offered nor reported;
     repaired: GET /a is reported with its path and method, GET /b is offered -/
@@ -399,21 +375,6 @@ theorem C08_scope_root (cfg : Cfg) (d : Doc) (s : St) (hr : Reach cfg d s) : s.s
 
 /-! ### the tree as found: look-ups resolve outside the path item's scope (F15, F15b, F15c, FC08b) -/
 
-/-- root `schema.json`, path item of `/a` in `sub/items.json`, its parameters in `sub/common.json`; a second
-    `common.json` next to the root document holds different definitions under the same pointers -/
-def wScopeDoc : Doc :=
-  { paths := [("/a", .ref "sub/items.json" "/items/I1"),
-              ("/b", .inline ⟨[], [("get", ⟨some "getB", [.ref "common.json" "/params/P1"], .absent, none⟩)]⟩)],
-    files := [⟨[], []⟩,
-              ⟨[], [("/items/I1", ⟨[.ref "common.json" "/params/P1"],
-                                   [("get", ⟨some "getA", [.ref "common.json" "/params/P2"], .absent, none⟩)]⟩)]⟩,
-              ⟨[("/params/P1", pP "p" 1), ("/params/P2", pP "q" 2)], []⟩,
-              ⟨[("/params/P1", pP "p" 3), ("/params/P2", pP "q" 4)], []⟩],
-    links := [((0, "common.json"), 3), ((0, "sub/items.json"), 1), ((1, "common.json"), 2)],
-    schemes := [], globalSec := [] }
-
-def qp (a b : Nat) : List Param := [⟨some "q", some "query", false, a⟩, ⟨some "p", some "query", false, b⟩]
-
 /-- F15: iteration offers GET /a with the definitions of `sub/common.json` (tags 2, 1); as found,
     `schema["/a"]["get"]` silently takes the shared parameter from the root's `common.json` (tag 3) and
     `get_operation_by_id("getA")` takes both from there (tags 4, 3); repaired, both return what iteration offers -/
@@ -468,12 +429,6 @@ theorem suspend_asFound_witness :
       [.unit, .next (some (.ok ⟨"/a", "get", [], [], [], qp 2 1, []⟩)) none,
        .op 0 ⟨"/b", "get", [], [], [], [⟨some "p", some "query", false, 3⟩], []⟩] := by
   decide
-
-def wPopulateDoc : Doc :=
-  { paths := [("/b", .inline ⟨[], [("get", ⟨some "getB", [], .absent, none⟩)]⟩),
-              ("/0", .ref "nope.json" "/items/X"),
-              ("/c", .inline ⟨[], [("get", ⟨some "getC", [], .absent, none⟩)]⟩)],
-    files := [⟨[], []⟩], links := [], schemes := [], globalSec := [] }
 
 /-- FC08b: as found, one unresolvable path item makes `get_operation_by_id("getC")` raise RefResolutionError, then
     OperationNotFound, for an operation iteration offers - unless `schema["/c"]["get"]` was used before: the answer
